@@ -109,6 +109,28 @@ probe("eval-order-args", Fn("tr", [("k", "i32")], "i32", Print(V("k")), Ret(V("k
       Main(Let("r", "i32", Call("add3", Call("tr", I("i32", 1)), Call("tr", I("i32", 2)), Call("tr", I("i32", 3)))), Print(V("r")),
            Let("q", "i32", Bin("sub", "i32", Call("tr", I("i32", 10)), Call("tr", I("i32", 4)))), Print(V("q"))), feats=("eval-order",))
 
+_TR = Fn("tr", [("k", "i32")], "i32", Print(V("k")), Ret(V("k")))
+_TR64 = Fn("tr64", [("k", "i64")], "i64", Print(V("k")), Ret(V("k")))
+# struct literals: initialisers run in the order they are WRITTEN, whatever the declaration order (also nested, as argument, as result)
+probe("eval-order-struct", _TR, _TR64, Struct("Q", ("A", "i32"), ("B", "i64"), ("C", "i32")), Struct("W", ("P", TS("Q")), ("N", "i32"), ("M", "i32")),
+      Fn("sumq", [("q", TS("Q"))], "i64", Ret(Bin("add", "i64", Cast("i32", "i64", Bin("add", "i32", Fld(V("q"), "A"), Fld(V("q"), "C"))), Fld(V("q"), "B")))),
+      Fn("mkq", [], TS("Q"), Ret(SLitL("Q", [("B", Call("tr64", I("i64", 41))), ("C", Call("tr", I("i32", 42))), ("A", Call("tr", I("i32", 43)))]))),
+      Main(Let("q", TS("Q"), SLitL("Q", [("A", Call("tr", I("i32", 1))), ("B", Call("tr64", I("i64", 2))), ("C", Call("tr", I("i32", 3)))])), Print(Fld(V("q"), "A")), Print(Fld(V("q"), "B")), Print(Fld(V("q"), "C")),
+           Let("r", TS("Q"), SLitL("Q", [("C", Call("tr", I("i32", 11))), ("A", Call("tr", I("i32", 12))), ("B", Call("tr64", I("i64", 13)))])), Print(Fld(V("r"), "A")), Print(Fld(V("r"), "B")), Print(Fld(V("r"), "C")),
+           Let("w", TS("W"), SLitL("W", [("M", Call("tr", I("i32", 20))), ("P", SLitL("Q", [("B", Call("tr64", I("i64", 21))), ("A", Call("tr", I("i32", 22))), ("C", Call("tr", I("i32", 23)))])), ("N", Call("tr", I("i32", 24)))])),
+           Print(Fld(V("w"), "N")), Print(Fld(V("w"), "M")), Print(Fld(Fld(V("w"), "P"), "A")), Print(Fld(Fld(V("w"), "P"), "B")), Print(Fld(Fld(V("w"), "P"), "C")),
+           Print(Call("sumq", SLitL("Q", [("C", Call("tr", I("i32", 31))), ("B", Call("tr64", I("i64", 32))), ("A", Call("tr", I("i32", 33)))]))),
+           Let("m", TS("Q"), Call("mkq")), Print(Fld(V("m"), "A")), Print(Fld(V("m"), "B")), Print(Fld(V("m"), "C"))), feats=("eval-order-struct",))
+
+probe("eval-order-array", _TR, Main(Let("a", TA(3, "i32"), ALit(Call("tr", I("i32", 1)), Call("tr", I("i32", 2)), Call("tr", I("i32", 3)))), Print(Idx(V("a"), I("i32", 0))), Print(Idx(V("a"), I("i32", 2))),
+                                    Let("d", TD("i32"), ALit(Call("tr", I("i32", 4)), Call("tr", I("i32", 5)))), Print(Idx(V("d"), Call("tr", I("i32", 1)))), Print(Len(V("d"))),
+                                    Print(Bin("sub", "i32", Idx(V("a"), I("i32", 1)), Bin("mul", "i32", Call("tr", I("i32", 6)), Call("tr", I("i32", 7)))))), feats=("eval-order-array",))
+
+probe("eval-order-method", _TR, Struct("K", ("V", "i32")), Method("K", "ref", "self", "add2", [("a", "i32"), ("b", "i32")], "i32", Ret(Bin("add", "i32", Fld(V("self"), "V"), Bin("sub", "i32", V("a"), V("b"))))),
+      Fn("three", [("a", "i32"), ("b", "i32"), ("c", "i32")], "i32", Ret(Bin("sub", "i32", V("a"), Bin("sub", "i32", V("b"), V("c"))))),
+      Main(Let("k", TS("K"), SLit("K", V=I("i32", 100))), Print(MCall(V("k"), "K", "add2", Call("tr", I("i32", 1)), Call("tr", I("i32", 2)))),
+           Print(Call("three", Call("tr", I("i32", 3)), Call("three", Call("tr", I("i32", 4)), Call("tr", I("i32", 5)), Call("tr", I("i32", 6))), Call("tr", I("i32", 7))))), feats=("eval-order-method",))
+
 probe("struct-basic", Struct("P", ("X", "i32"), ("Y", "i64")),
       Main(Let("p", TS("P"), SLit("P", X=I("i32", 3), Y=I("i64", -4))), Print(Fld(V("p"), "X")), Print(Fld(V("p"), "Y")),
            Set(Fld(V("p"), "X"), Bin("add", "i32", Fld(V("p"), "X"), I("i32", 10))), Print(Fld(V("p"), "X")),
